@@ -124,7 +124,7 @@ PROPS["C18"] = dict(P(["tlv_dec", "tlv_enc", "tlv_get"],
 
 NOT_APPLICABLE = {
 }
-HOOK_COMMITS = ["a595cb4", "8d4e42a", "747697f", "d2148d0", "01828dc", "e05e365", "7bebe0f", "3c90e2c"]
+HOOK_COMMITS = ["a595cb4", "8d4e42a", "747697f", "d2148d0", "01828dc", "e05e365", "7bebe0f", "3c90e2c", "5d6f683"]
 NOTES = "Contract-based deductive verification of the real code; see DESIGN.md. exit 2 = undecided (never a VIOLATION)."
 
 # where a function that other units enter as a contract-only stub is actually proved
